@@ -65,13 +65,14 @@ pub fn limit_address_space(bytes: u64) {
 
 pub fn cfg_from_mask(mask: u32) -> walrus::ModuleConfig {
     let mut c = walrus::ModuleConfig::new();
+    // generate_dwarf(true) implies preserve_code_transform, so the latter is set first
+    c.preserve_code_transform(mask & 64 != 0);
     c.generate_dwarf(mask & 1 != 0);
     c.generate_name_section(mask & 2 != 0);
     c.generate_synthetic_names_for_anonymous_items(mask & 4 != 0);
     c.strict_validate(mask & 8 != 0);
     c.generate_producers_section(mask & 16 != 0);
     c.only_stable_features(mask & 32 != 0);
-    c.preserve_code_transform(mask & 64 != 0);
     c
 }
 
